@@ -1,4 +1,4 @@
-From Urwid Require Import TextLayoutBytes.
+From Urwid Require Import TextLayoutModes.
 From Coq Require Extraction ExtrOcamlBasic.
 Extraction Language OCaml.
 Extraction "model.ml" run_case.
